@@ -26,6 +26,7 @@ DRIVER = 'drv_loop_zerofpr'
 MODULES = ['Alpaqa.Props.C03_Zerofpr', 'Alpaqa.Props.C05_Zerofpr', 'Alpaqa.Props.C06_Zerofpr',
            'Alpaqa.Props.C19_Zerofpr']
 EXTRA_SOURCES = ['Alpaqa/Model/Zerofpr.lean', 'Alpaqa/Proofs/ZerofprInv.lean',
+                 'Alpaqa/Proofs/ZerofprStep.lean',
                  'Alpaqa/Gen/C05.lean', 'Alpaqa/Gen/C06.lean', 'Driver/LoopZerofpr.lean']
 GEN_SCRIPTS = ['gen_c05.py', 'gen_c06.py']
 HARNESS_SOURCES = ['solvers_zerofpr_main.cpp', 'solvers_zerofpr.cpp']
@@ -41,9 +42,15 @@ def build_harness():
     return C.build_exe('solvers_zerofpr', srcs + C.repo_lib_sources(S.LIB_SUBSET))
 
 
-def gen_run(rng, stop=None, **over):
+def gen_run(rng, stop=None, wild=False, **over):
     """One ZeroFPR run.  stop=None: random stop injection (evaluation / callback / none);
-    stop=False: none.  Keyword arguments override op fields."""
+    stop=False: none.  Keyword arguments override op fields.
+    wild=True additionally draws a small `L_max` (64 or 4): this is what reaches the
+    `next->L >= L_max` branches of the line search, but with the step size no longer allowed to
+    shrink the iterates of many problems diverge to 1e38 … inf within a few iterations.  Such runs
+    are for the *replay* (model = code also there); the C03 monitor's feasibility tolerance
+    (ulps of the returned x and the bound) is not meaningful when the projection's operand is 1e38
+    and the problem functions overflow, so monitors should be applied to wild=False runs."""
     l1 = rng.random() < 0.15
     p = S.gen_problem(rng, l1=l1)
     st = S.gen_start(rng, p)
@@ -63,7 +70,7 @@ def gen_run(rng, stop=None, **over):
                'beta': f2h(rng.choice([0.95, 0.95, 0.5, 1.0, 0.0])),
                'lstol': f2h(rng.choice([EPS10, EPS10, 0.0, 1e-3])),
                'qubtol': f2h(rng.choice([EPS10, EPS10, 0.0, 1e-3])),
-               'Lmax': f2h(rng.choice([1e20, 1e20, 1e20, 64.0, 4.0])),
+               'Lmax': f2h(rng.choice([64.0, 4.0]) if (wild and rng.random() < 0.7) else 1e20),
                'Lgf': f2h(rng.choice([0.95, 0.95, 0.5, 1.0])),
                'mem': str(rng.choice([1, 2, 5])),
                'advseed': str(rng.randint(1, 1000)), 'advinit': str(rng.choice([0, 0, 1])),
@@ -83,12 +90,17 @@ def gen_run(rng, stop=None, **over):
     return op
 
 
-def sweep_ops(rng, exe, n_problems):
+def is_wild(op_line):
+    return S.Op.parse(op_line).flt('Lmax', 1e20) < 1e19
+
+
+def sweep_ops(rng, exe, n_problems, wild=False):
     """Exhaustive stop injection: for fixed runs, `stop()` during every event index (problem
     evaluation, direction call or progress callback)."""
     ops = []
     for _ in range(n_problems):
-        base = gen_run(rng, stop=False, maxiter=rng.choice([2, 3, 4]), nanat=0, oot=0, trace=0)
+        base = gen_run(rng, stop=False, wild=wild, maxiter=rng.choice([2, 3, 4]), nanat=0, oot=0,
+                       trace=0)
         out, rc, err = C.run_lines(exe, [base.line()])
         if rc != 0 or not out:
             continue
@@ -121,6 +133,7 @@ def replay(exe, ops, drv=None, show=3):
         res['bad'] = len(ops)
         res['first'].append(f'driver rc={rc} lines={len(dout)}/{len(ops)}: {err[-300:]}')
         return res
+    res['monitor_hits'] = monitor_hits(ops, hout)
     for i, (o, h, d) in enumerate(zip(ops, hout, dout)):
         if d.startswith('ORACLE-NOT-A-FUNCTION'):
             # NaN injection made the recorded problem answer differently to the same question:
@@ -147,11 +160,28 @@ def replay(exe, ops, drv=None, show=3):
     return res
 
 
+def monitor_hits(ops, hout):
+    """The C03 monitor (checks/c03.py: feasibility of x, err_z = g(x) − Π_D(g(x)+y/Σ), y = y_in+Σ·err_z,
+    multiplier signs, untouched outputs) applied to the real solver's outputs."""
+    import c03
+    hits = []
+    for o, h in zip(ops, hout):
+        if is_wild(o):
+            continue
+        try:
+            m = c03.monitor(o, h, {})
+        except Exception as e:
+            m = f'monitor crashed: {e!r}'
+        if m:
+            hits.append((m if isinstance(m, str) else m[0], o))
+    return hits
+
+
 def coverage(ops):
     cov = collections.defaultdict(collections.Counter)
     for o in ops:
         op = S.Op.parse(o)
-        for k in ['dir', 'crit', 'maxiter', 'overwrite', 'nanat', 'stopcb'] + ZEROFPR_PARAMS:
+        for k in ['dir', 'crit', 'maxiter', 'overwrite', 'nanat', 'stopcb', 'Lmax'] + ZEROFPR_PARAMS:
             v = op.get(k, '-')
             if k in ('nanat', 'stopcb'):
                 v = '0' if v == '0' else '>0'
@@ -182,14 +212,14 @@ def selftest(argv):
     if exe is None:
         print('harness build FAILED:', log[-2000:])
         return 1
-    total = bad = skipped = 0
+    total = bad = skipped = nmon = 0
     status = collections.Counter()
     cov_all = collections.defaultdict(collections.Counter)
     for sd in seeds:
         rng = random.Random(sd * 1000003 + 5)
-        ops = [gen_run(rng).line() for _ in range(n)]
+        ops = [gen_run(rng, wild=(i % 3 == 2)).line() for i in range(n)]
         nr = len(ops)
-        ops += sweep_ops(rng, exe, nsweep)
+        ops += sweep_ops(rng, exe, nsweep) + sweep_ops(rng, exe, max(1, nsweep // 3), wild=True)
         r = replay(exe, ops)
         for k, c in coverage(ops).items():
             cov_all[k].update(c)
@@ -197,13 +227,16 @@ def selftest(argv):
               f'skipped(non-functional oracle)={r["skipped"]}')
         for m in r['first']:
             print(m)
+        for m, o in r.get('monitor_hits', [])[:3]:
+            print(f'C03 MONITOR HIT: {m}\n   op: {o}')
+        nmon += len(r.get('monitor_hits', []))
         total += r['n']; bad += r['bad']; skipped += r['skipped']
         status.update(r['status'])
-    print(f'TOTAL runs={total} mismatches={bad} skipped={skipped}')
+    print(f'TOTAL runs={total} mismatches={bad} skipped={skipped} c03-monitor-hits={nmon}')
     print('exit status of the real solver:', dict(status))
     for k in sorted(cov_all):
         print(f'  coverage {k}: {dict(sorted(cov_all[k].items()))}')
-    return 0 if (ps['ok'] and bad == 0) else 1
+    return 0 if (ps['ok'] and bad == 0 and nmon == 0) else 1
 
 
 if __name__ == '__main__':
